@@ -17,7 +17,8 @@ func init() {
 			"(R1) Manager.Close terminates, then waits for the stream-manager goroutine, the reader goroutine and the transport-closed signal, and returns the transport's close error; both goroutines announce their exit by a first-registered defer; " +
 			"(R2) every `go` statement in the library has a resolved target and a termination witness of a reviewed kind; " +
 			"(R3) ServeOne closes its manager on every path; Serve registers Wait before Cancel (so Cancel runs first) and every per-connection goroutine is tracked; " +
-			"(R4) every close(ch) is close-once: inside a sync.Once, or under a mutex behind a state test flipped in the same critical section, or in package init; " +
+			"(R5) the client connection's Close does not, before it has closed the manager, take a mutex that Invoke/NewStream hold across a blocking stream operation (the close is what unblocks them); " +
+			"(R4) every close(ch) is close-once: inside a sync.Once, or in package init, or behind a state test that is made and flipped under one hold of a mutex (the close itself may follow the unlock when it is behind a value that is only set on that side); " +
 			"plus shared: terminate closes the transport once and wakes the reader (C04.R4), every blocking point of the connection goroutines has a term case (C04.R6), the watcher cancels the active stream on termination (C04.R3), finish signals (C03.R5).",
 		NotDecided:  "that Close returns for every instant it is issued; a goroutine census at runtime; that every pending call fails (C04/C05 cover the mechanisms).",
 		Assumptions: []string{"Transport.Close returns and unblocks pending I/O (transport contract)"},
@@ -26,6 +27,7 @@ func init() {
 			{ID: "C12.R2", Doc: "goroutine inventory: every go statement has a resolved target and a termination witness", Run: c12r2},
 			{ID: "C12.R3", Doc: "ServeOne defers Manager.Close; Serve defers tracker.Wait before tracker.Cancel and runs connections through the tracker", Run: c12r3},
 			{ID: "C12.R4", Doc: "close-once: every close(ch) is inside sync.Once.Do, or under a mutex guarded by a flag set in the same critical section, or in init", Run: c12r4},
+			{ID: "C12.R5", Doc: "Conn.Close reaches Manager.Close without taking a mutex that a call in flight holds while it blocks", Run: c12r5},
 			{ID: "C12.S1", Alias: "C04.R4"},
 			{ID: "C12.S2", Alias: "C04.R6"},
 			{ID: "C12.S3", Alias: "C04.R3"},
@@ -298,22 +300,25 @@ func closeOnce(c *an.Ctx, onlyPkg string) {
 				lf := pl.Flow(fn)
 				held := lf != nil && len(lf.Must(in)) > 0
 				flipped := false
-				if held {
+				if lf != nil {
 					for _, g := range an.GuardsOf(in.Block()) {
-						// the tested location (a field or a bit of it) is stored to between the test and the close
+						// the tested location (a field or a bit of it) is read under a mutex and stored to, still under
+						// that mutex, between the test and the close: only one goroutine ever gets past the test. The
+						// close itself may come after the unlock (behind a local that is only set on that side).
 						tested := testedField(g.Cond)
-						if tested == nil {
+						if tested == nil || g.If == nil || len(lf.Must(g.If)) == 0 {
 							continue
 						}
 						an.Instrs(fn, func(i2 ssa.Instruction) {
 							if fieldWritten(i2, tested) && an.InstrDominates(g.If, i2) && an.InstrDominates(i2, in) {
-								if len(lf.Must(i2)) > 0 {
+								if sameHeld(lf.Must(i2), lf.Must(g.If)) && !unlockBetween(pl, lf, g.If, i2) {
 									flipped = true
 								}
 							}
 						})
 					}
 				}
+				held = held || flipped
 				c.Check(held && flipped, key, c.At(in), "under a mutex, behind a flag flipped in the same critical section",
 					"close(ch) can run twice (close of closed channel panics): it is neither inside a sync.Once nor under a mutex behind a state test that the same critical section flips before closing")
 			})
@@ -476,4 +481,114 @@ func wgWitness(spawner *ssa.Function, goInstr ssa.Instruction, target *ssa.Funct
 		return true
 	}
 	return doneOnAllPaths(target, 0)
+}
+
+// sameHeld: the two must-held lock sets are equal and not empty.
+func sameHeld(a, b []string) bool {
+	if len(a) == 0 || len(a) != len(b) {
+		return false
+	}
+	m := map[string]bool{}
+	for _, x := range a {
+		m[x] = true
+	}
+	for _, y := range b {
+		if !m[y] {
+			return false
+		}
+	}
+	return true
+}
+
+// unlockBetween: some instruction on a path from a to b is outside the critical section that a is in (the lock was
+// released and taken again in between).
+func unlockBetween(pl *an.PkgLocks, lf *an.LockFlow, a, b ssa.Instruction) bool {
+	fn := a.Parent()
+	bad := false
+	an.Instrs(fn, func(in ssa.Instruction) {
+		if bad || in == a || in == b {
+			return
+		}
+		if an.CanReach(a, in) && an.CanReach(in, b) && an.InstrDominates(a, in) && len(lf.Must(in)) == 0 {
+			bad = true
+		}
+	})
+	return bad
+}
+
+func c12r5(c *an.Ctx) {
+	a := A(c)
+	pl := locksOf(c, "drpcconn")
+	lt := sharedOf(c.P).lt
+	manClose := a.obj("drpcmanager", "(*Manager).Close")
+	closeFn := c.Fn("drpcconn", "(*Conn).Close")
+	// mutexes (by the struct field that holds them) that some function of the package holds while it calls into the
+	// manager or a stream: those calls block on the peer, on the stream slot or on the transport
+	long := map[*types.Var]string{}
+	for _, fn := range must(c.P.SourceFuncs("drpcconn")) {
+		lf := pl.Flow(fn)
+		if lf == nil {
+			continue
+		}
+		an.Instrs(fn, func(in ssa.Instruction) {
+			ci, ok := in.(ssa.CallInstruction)
+			if !ok {
+				return
+			}
+			obj := an.CalleeObj(ci.Common())
+			if obj == nil || obj.Pkg() == nil {
+				return
+			}
+			switch obj.Pkg().Name() {
+			case "drpcmanager", "drpcstream":
+			default:
+				return
+			}
+			if sig, isSig := obj.Type().(*types.Signature); !isSig || sig.Recv() == nil {
+				return
+			}
+			for _, key := range lf.May(in) {
+				if id, has := lf.IDs[key]; has && id.Class() != nil {
+					long[id.Class()] = an.ShortFunc(fn) + " holds it across " + obj.Name()
+				}
+			}
+		})
+	}
+	// in Close (and what it calls in the package), a Lock of such a mutex from which the manager's Close is still ahead
+	var mc []ssa.Instruction
+	an.Instrs(closeFn, func(in ssa.Instruction) {
+		if ci, ok := in.(ssa.CallInstruction); ok && an.IsCallTo(ci.Common(), manClose) {
+			mc = append(mc, in)
+		}
+	})
+	if !c.Check(len(mc) > 0, "(*Conn).Close | closes the manager", c.P.Pos(closeFn.Pos()), "", "Conn.Close does not call Manager.Close") {
+		return
+	}
+	bad := ""
+	var where ssa.Instruction
+	an.Instrs(closeFn, func(in ssa.Instruction) {
+		ci, ok := in.(ssa.CallInstruction)
+		if !ok {
+			return
+		}
+		op, isOp := lt.OpOf(ci.Common())
+		if !isOp || op.Kind != "lock" || op.Lock.Class() == nil {
+			return
+		}
+		why, isLong := long[op.Lock.Class()]
+		if !isLong {
+			return
+		}
+		for _, m := range mc {
+			if an.CanReach(in, m) {
+				bad, where = why, in
+			}
+		}
+	})
+	pos := c.P.Pos(closeFn.Pos())
+	if where != nil {
+		pos = c.At(where)
+	}
+	c.Check(bad == "", "(*Conn).Close | reaches Manager.Close without waiting for a call in flight", pos, fmt.Sprintf("%d mutex(es) are held across blocking calls in drpcconn; Close takes none of them first", len(long)),
+		"Close locks a mutex before closing the manager that "+bad+": Close waits for the call that only the close would unblock")
 }
